@@ -3,6 +3,8 @@
 package snaps
 
 import (
+	"encoding/json"
+
 	"github.com/gkampitakis/go-snaps/internal/vxrt"
 	"github.com/tidwall/gjson"
 )
@@ -107,23 +109,33 @@ func H_C14_canonical() {
 	sortKeys := true
 	switch vxrt.Choice("json-config", 3) {
 	case 0:
-		c = WithConfig()
+		c = WithConfig(Dir(vxrt.Dir()), Filename("f"))
 	case 1:
 		sortKeys = false
-		c = WithConfig(JSON(JSONConfig{Indent: "\t", SortKeys: false}))
+		c = WithConfig(Dir(vxrt.Dir()), Filename("f"), JSON(JSONConfig{Indent: "\t", SortKeys: false}))
 	default:
-		c = WithConfig(JSON(JSONConfig{Width: 80, Indent: "", SortKeys: true}))
+		c = WithConfig(Dir(vxrt.Dir()), Filename("f"), JSON(JSONConfig{Width: 80, Indent: "", SortKeys: true}))
 	}
+	// what MatchJSON stores for an input: each form is recorded by its own test
+	// in a scratch directory and read back
+	vxrt.CI(false)
+	nth := 0
 	snap := func(in any) (string, bool) {
-		b, err := validateJSON(in)
-		if err != nil {
+		nth++
+		t := newT("TestForm" + itoa(nth))
+		c.MatchJSON(t, in)
+		t.end()
+		if len(t.errors) != 0 || len(t.logs) != 1 {
 			return "", false
 		}
-		return takeJSONSnapshot(c, b), true
+		got, _, err := getPrevSnapshot("[TestForm"+itoa(nth)+" - 1]", vxrt.Dir()+"/f.snap")
+		return got, err == nil
 	}
 	sPlain, ok1 := snap(plain)
 	sBytes, ok2 := snap([]byte(plain))
 	sValue, ok3 := snap(vxrt.JSONValue{Doc: plain})
+	sRaw, okRaw := snap(json.RawMessage(plain))
+	vxrt.Assert(okRaw && vxrt.Eq(sPlain, sRaw), "C14:raw-message-stores-identically")
 	sSpaced, ok4 := snap(spaced)
 	vxrt.Assert(ok1 && ok2 && ok3 && ok4, "C14:template-accepted")
 	vxrt.Assert(vxrt.Eq(sPlain, sBytes), "C14:string-and-bytes-store-identically")
@@ -153,10 +165,12 @@ func H_C14_invalid() {
 	doc := vxrt.Text("doc", vxrt.Len("doc-len", 0, vxrt.Param("n", 3)))
 	valid := gjson.Valid(doc)
 	api := vxrt.Choice("api", 2)
-	asBytes := vxrt.Bool("as-bytes")
 	var in any = doc
-	if asBytes {
+	switch vxrt.Choice("input-form", 3) {
+	case 1:
 		in = []byte(doc)
+	case 2:
+		in = json.RawMessage(doc)
 	}
 	empty := dumpDir(dir)
 	t := newT("TestJ")
@@ -174,4 +188,17 @@ func H_C14_invalid() {
 	vxrt.Reach("invalid")
 	vxrt.Assert(len(t.errors) == 1 && len(t.logs) == 0, "C14:invalid-fails-once")
 	vxrt.Assert(vxrt.Eq(dumpDir(dir), empty), "C14:invalid-writes-nothing")
+	// the rejected call consumed its slot: a following valid call of the same test is number 2
+	t2 := newT("TestJ2")
+	if api == 0 {
+		c.MatchJSON(t2, in)
+		c.MatchJSON(t2, `{"ok":1}`)
+		_, _, err := getPrevSnapshot("[TestJ2 - 2]", dir+"/f.snap")
+		vxrt.Assert(err == nil, "C14:rejected-call-keeps-its-slot")
+	} else {
+		c.MatchStandaloneJSON(t2, in)
+		c.MatchStandaloneJSON(t2, `{"ok":1}`)
+		vxrt.Assert(readFile(dir+"/f_2.snap.json") != "<missing>", "C14:rejected-call-keeps-its-slot")
+	}
+	t2.end()
 }
